@@ -63,7 +63,12 @@ def split_words(value: str) -> list[str]:
     return re.findall(rf"[^{DELIMITERS}]+", value)
 
 
-RESERVED_WORDS = (set(dir(builtins)) | {"self", "true", "false", "datetime"}) - {
+RESERVED_WORDS = (
+    set(dir(builtins))
+    | {"self", "true", "false", "datetime"}
+    # Names which the generated model classes use themselves (locals of from_dict/to_dict, methods, imports)
+    | {"d", "cls", "field_dict", "additional_properties", "from_dict", "to_dict", "cast", "isoparse"}
+) - {
     "id",
 }
 
